@@ -181,9 +181,9 @@ var paceTampers = []string{"wrong-password", "nonce-flip", "map-key-other-point"
 
 var bacTampers = []string{"bitflip", "other-mrz-keys", "replay-other-run", "wrong-rnd-ifd-echo", "wrong-rnd-ic-echo", "swapped-echoes", "short-39", "long-41", "zero", "status-6300", "wrong-password"}
 
-var caImpostors = []string{"own-key", "no-switch", "plain-9000", "replay-transcript", "own-key-no-switch"}
+var caImpostors = []string{"own-key", "no-switch", "plain-9000", "replay-transcript", "own-key-no-switch", "empty-mac-probe", "short-mac-probe"}
 
-var aaTampers = []string{"bitflip", "other-challenge", "other-key", "truncate", "append", "zero-r", "zero-s", "r-eq-n", "s-plus-n", "neg-s-malleable", "digest-m1-only", "unknown-trailer", "wrong-hash-trailer", "random", "empty", "plain-as-der", "der-trailing"}
+var aaTampers = []string{"digest-tail-wrong", "bitflip", "other-challenge", "other-key", "truncate", "append", "zero-r", "zero-s", "r-eq-n", "s-plus-n", "neg-s-malleable", "digest-m1-only", "unknown-trailer", "wrong-hash-trailer", "random", "empty", "plain-as-der", "der-trailing"}
 
 func (e ProtoEngine) Gen(prop, tier string, seed uint64, yield func(c any) bool) {
 	rng := core.NewRng(core.SubSeed(seed, "proto", e.P, tier))
@@ -860,6 +860,28 @@ func runCA(c ProtoCase, out *core.Outcome) {
 		d.chip.CANoSwitch = true
 	case "plain-9000":
 		d.link.CmdHook = func(k int, cmd []byte) ([]byte, bool) { return []byte{0x90, 0x00}, true }
+	case "empty-mac-probe", "short-mac-probe":
+		// the impostor lets the key agreement commands through to a chip with its own key pair, then answers the
+		// verification SELECT (first command under the new keys) with a status object and an empty / short MAC object
+		var keys []chip.CAKey
+		for _, k := range w.Pers.CAKeys {
+			n := k.Curve.Params().N
+			dd := new(big.Int).SetBytes(rng.Bytes((n.BitLen() + 7) / 8))
+			dd.Mod(dd, n)
+			dd.Add(dd, big.NewInt(1))
+			keys = append(keys, chip.NewCAKey(k.Curve, dd, k.KeyID))
+		}
+		d.chip.P.CAKeys = keys
+		mac := []byte{}
+		if c.Mode == "short-mac-probe" {
+			mac = rng.Bytes(1 + c.A%3)
+		}
+		d.link.CmdHook = func(k int, cmd []byte) ([]byte, bool) {
+			if len(cmd) > 1 && cmd[1] == 0xA4 {
+				return append(append(chip.EncTLV(0x99, []byte{0x90, 0x00}), chip.EncTLV(0x8E, mac)...), 0x90, 0x00), true
+			}
+			return nil, false
+		}
 	case "replay-transcript":
 		// record a genuine run against another terminal ephemeral, then replay its responses
 		o2 := &core.Outcome{}
@@ -1075,7 +1097,7 @@ func runAA(c ProtoCase, out *core.Outcome) {
 				r.FillBytes(o[:l])
 				s.FillBytes(o[l:])
 			}
-		case "digest-m1-only", "unknown-trailer", "wrong-hash-trailer":
+		case "digest-m1-only", "unknown-trailer", "wrong-hash-trailer", "digest-tail-wrong":
 			if !isRSA {
 				o = signEC(key, chip.Hash(ecHash(key), rnd[:7]), mrng)
 				break
@@ -1211,6 +1233,12 @@ func forgeRSA(k *chip.AAKey, rnd []byte, mode string, rng *core.Rng) []byte {
 	switch mode {
 	case "digest-m1-only":
 		dg = chip.Hash(hash, m1)
+	case "digest-tail-wrong":
+		// a key-holding signer whose digest agrees with H(M1||RND.IFD) only in its leading half
+		dg = chip.Hash(hash, append(bytes.Clone(m1), rnd...))
+		for i := len(dg) / 2; i < len(dg); i++ {
+			dg[i] ^= byte(0x5A + i)
+		}
 	case "unknown-trailer":
 		dg = chip.Hash(hash, append(bytes.Clone(m1), rnd...))
 		if len(tr) == 1 {
